@@ -354,6 +354,21 @@ func (st *evalState) eval(v ssa.Value) (int64, bool) {
 	case *ssa.ChangeType:
 		return st.eval(x.X)
 	case *ssa.UnOp:
+		if x.Op == token.MUL {
+			if ia, ok := x.X.(*ssa.IndexAddr); ok {
+				if tab, ok := constArrayOf(ia.X); ok {
+					i, ok := st.eval(ia.Index)
+					if !ok {
+						return 0, false
+					}
+					if v, ok := tab[i]; ok {
+						return v, true
+					}
+					return st.fail("constant array index out of range")
+				}
+			}
+			return st.fail("load from memory that is not a constant table: %s", x.X.String())
+		}
 		a, ok := st.eval(x.X)
 		if !ok {
 			return 0, false
@@ -435,6 +450,18 @@ func (st *evalState) eval(v ssa.Value) (int64, bool) {
 		}
 		return st.fail("phi evaluated on a path that did not enter its block")
 	case *ssa.Index:
+		if al, ok := x.X.(*ssa.UnOp); ok && al.Op == token.MUL {
+			if tab, ok := constArrayOf(al.X); ok {
+				i, ok := st.eval(x.Index)
+				if !ok {
+					return 0, false
+				}
+				if v, ok := tab[i]; ok {
+					return v, true
+				}
+				return st.fail("constant array index out of range")
+			}
+		}
 		if s, ok := constString(x.X); ok {
 			i, ok := st.eval(x.Index)
 			if !ok {
@@ -468,10 +495,17 @@ func (st *evalState) evalCall(c *ssa.Call) (int64, bool) {
 		}
 		t := st.e.Table(callee)
 		if t.why != "" {
+			// no finite table (e.g. an int parameter): evaluate the callee for this one argument value
+			if v, ok := st.evalCalleeAt(callee, a); ok {
+				return v, true
+			}
 			return st.fail("callee %s not analysable: %s", callee.Name(), t.why)
 		}
 		o, ok := t.lookup(a)
 		if !ok {
+			if v, ok := st.evalCalleeAt(callee, a); ok {
+				return v, true
+			}
 			return st.fail("argument %d outside callee %s's domain", a, callee.Name())
 		}
 		if o.kind != oRet {
@@ -775,4 +809,71 @@ func (e *bsetEngine) reachEdgesUnderSym(fn *ssa.Function, isSym func(ssa.Value) 
 		dfs(fn.Blocks[0])
 	}
 	return out, edges
+}
+
+// evalCalleeAt evaluates a loop-free module function with one scalar parameter for one argument value.
+func (st *evalState) evalCalleeAt(callee *ssa.Function, a int64) (int64, bool) {
+	if callee == nil || callee.Blocks == nil || len(callee.Params) != 1 || st.depth > 50 {
+		return 0, false
+	}
+	param := callee.Params[0]
+	sub := &evalState{e: st.e, fn: callee, d: a, isSym: func(v ssa.Value) bool { return v == ssa.Value(param) }, from: make([]int, len(callee.Blocks)), depth: st.depth + 1}
+	for i := range sub.from {
+		sub.from[i] = -2
+	}
+	o := sub.walk()
+	if o.kind != oRet {
+		return 0, false
+	}
+	return o.val, true
+}
+
+// constArrayOf: addr is a local array (Alloc) or a package-level array variable all of whose element stores are
+// constants at constant indices (and, for a local, nothing else takes its address): returns index → value.
+func constArrayOf(addr ssa.Value) (map[int64]int64, bool) {
+	al, ok := addr.(*ssa.Alloc)
+	if !ok {
+		return nil, false
+	}
+	if _, isArr := deref(al.Type()).Underlying().(*types.Array); !isArr {
+		return nil, false
+	}
+	tab := map[int64]int64{}
+	for _, r := range refsOf(al) {
+		switch x := r.(type) {
+		case *ssa.IndexAddr:
+			for _, rr := range refsOf(x) {
+				switch y := rr.(type) {
+				case *ssa.Store:
+					if y.Addr != ssa.Value(x) {
+						return nil, false
+					}
+					i, ok1 := constInt(x.Index)
+					v, ok2 := constInt(y.Val)
+					if !ok1 || !ok2 {
+						return nil, false
+					}
+					tab[i] = v
+				case *ssa.UnOp, *ssa.DebugRef:
+				default:
+					return nil, false
+				}
+			}
+		case *ssa.DebugRef:
+		case *ssa.Slice, *ssa.UnOp:
+			// reading the whole array or slicing it for a read-only range is fine only if nothing writes through it;
+			// be conservative: allow UnOp (copy), reject slices
+			if _, isSl := x.(*ssa.Slice); isSl {
+				return nil, false
+			}
+		case *ssa.Store:
+			return nil, false
+		default:
+			return nil, false
+		}
+	}
+	if len(tab) == 0 {
+		return nil, false
+	}
+	return tab, true
 }
